@@ -20,6 +20,15 @@ EDGES = [1023, 1024, 1025, 2047, 2048, 2049, 3071, 3072]
 
 
 def gen_body(rng):
+    if rng.random() < 0.03:
+        # a large body that the program will mostly leave unread: the parser has to skip all of it
+        n = rng.choice([70000, 73728, 73729, 80000, 140000])
+        b = bytearray(b"Z" * n)
+        for off in (65536, 73728, 8192 * 9, n - 40):
+            if 0 < off < n - 40:
+                fake = b"\r\nGET /smuggled-at-%d HTTP/1.1\r\nHost: x\r\n\r\n" % off
+                b[off:off + len(fake)] = fake
+        return bytes(b)
     kind = rng.randint(0, 7)
     n = rng.choice([0, 1, 2, 5, 100, 1023, 1024, 1025, 2048, 3000, 5000, rng.randint(0, 5000), 8191, 8193, 9000, 17000])
     if kind == 0:
